@@ -50,6 +50,17 @@ def _ladder(run, name, tickterm, facts=None, tm=TM, R1="R1", tag=""):
     masks = []
     for at in ats:
         c = at.cond()
+        # an assertion of the dispatch's own precondition (`debug_assert!(tick >= 0)` in the positive ladder, `tick < 0` resp.
+        # `abs_tick > 0` .. in the negative one) decides nothing: one side only panics, and the condition holds for every argument
+        # the dispatch passes
+        if c and (at.true_fail != at.false_fail) and not (at.true_codes | at.false_codes):
+            from rules.common import decided
+            dc = decided(at, lambda t: strip(t)[0] == "param", ("Ge", "Lt"))
+            if dc is not None and const_val(dc[2]) == 0:
+                holds_on_continue = not cfg.fail_only(fn, dc[3][0])     # the side where `param OP 0` holds continues
+                pre = "Ge" if name.endswith("positive_tick") else "Lt"
+                if holds_on_continue and dc[0] == pre:
+                    continue
         ok = c and c[0] == "Ne" and const_val(c[2]) == 0 and strip(c[1])[0] == "bin" and strip(c[1])[1] == "BitAnd" and tickterm(pv, strip(c[1])[2])
         if not ok:
             run.bad(R1, "ladder-atoms@" + name, "%s branches on %s; a ladder may only test `tick & 2^k != 0`" % (name, at.describe()[:120]), loc=fn.loc(at.line))
@@ -396,6 +407,18 @@ def check_inverse(run, facts, tm, fnname, price_fn, params, rule="R3", tag=""):
     named = [l for l in range(fn.argc + 1, len(fn.locals)) if fn.locals[l].get("n")]
     lows = [l for l in named if len(pv.var_defs(l)) == 1 and candidate(pv.var_defs(l)[0][2], "Sub", lo) is not None]
     highs = [l for l in named if len(pv.var_defs(l)) == 1 and candidate(pv.var_defs(l)[0][2], "Add", up) is not None]
+    # a candidate computed in a helper that is read spliced in is copied into the caller's own variable: the copy is the candidate
+    # the final choice talks about, the helper's local only its source
+    def outermost(cs):
+        src = set()
+        for l in cs:
+            d_ = strip(pv.var_defs(l)[0][2])
+            while d_[0] in ("cast", "q"):
+                d_ = strip(d_[1])
+            if d_[0] == "var" and d_[2] in cs:
+                src.add(d_[2])
+        return [l for l in cs if l not in src]
+    lows, highs = outermost(lows), outermost(highs)
     ok = len(lows) == 1 and len(highs) == 1
     logt = None
     if ok:
